@@ -205,6 +205,18 @@ type opResult struct {
 
 func (w *World) deliver(name string, signer int, params []*big.Int, f func(ctx sdk.Context) error) opResult {
 	res := opResult{name: name, signer: signer, params: params}
+	// fee totals of the disputes before a dispute message (to tell what the message was credited with)
+	feeBefore := map[uint64]*big.Int{}
+	var prevID uint64
+	if name == "ProposeDispute" || name == "AddFeeToDispute" {
+		_ = w.s.Disputekeeper.Disputes.Walk(w.ctx, nil, func(k uint64, d disputetypes.Dispute) (bool, error) {
+			feeBefore[k] = d.FeeTotal.BigInt()
+			if k > prevID {
+				prevID = k
+			}
+			return false, nil
+		})
+	}
 	cctx, write := w.ctx.CacheContext()
 	func() {
 		defer func() {
@@ -238,10 +250,26 @@ func (w *World) deliver(name string, signer int, params []*big.Int, f func(ctx s
 			})
 		}
 		funded := int64(0)
-		if d, err := w.s.Disputekeeper.Disputes.Get(w.ctx, id); err == nil && (d.DisputeRound > 1 || d.FeeTotal.GTE(d.SlashAmount)) {
-			funded = 1
+		credited, slashNow := bi(0), bi(0)
+		if d, err := w.s.Disputekeeper.Disputes.Get(w.ctx, id); err == nil {
+			if d.DisputeRound > 1 || d.FeeTotal.GTE(d.SlashAmount) {
+				funded = 1
+			}
+			// what the message added to the fee total of the dispute, and the stake the same message escrowed (the slash
+			// amount, when this payment completed the fee of a first round)
+			was := feeBefore[id]
+			if name == "ProposeDispute" && d.DisputeRound > 1 && prevID != 0 {
+				was = feeBefore[prevID]
+			}
+			if was == nil {
+				was = bi(0)
+			}
+			credited = bsub(d.FeeTotal.BigInt(), was)
+			if d.DisputeRound == 1 && d.FeeTotal.GTE(d.SlashAmount) && (feeBefore[id] == nil || feeBefore[id].Cmp(d.SlashAmount.BigInt()) < 0) {
+				slashNow = d.SlashAmount.BigInt()
+			}
 		}
-		res.params = append(append([]*big.Int{}, res.params...), bi(funded))
+		res.params = append(append([]*big.Int{}, res.params...), bi(funded), credited, slashNow)
 	}
 	return res
 }
